@@ -72,8 +72,70 @@ def run(chk):
                     except Undecided as e:
                         v, d = UNDECIDED, e.cause
                     chk.add("C11.K", key, v, d, where=where_of(b))
+    symmetric_windows(chk, Env(F.load("dbg")))
     chk.notes["n_range"] = [0, nmax]
     chk.notes["k_values"] = "0..=n+2, 63, 64, 65, usize::MAX"
     chk.floor("C11 constructors", sum(1 for k in ("dyn", "static") for m in ("zero", "one", "nth_var", "parity", "majority", "threshold", "equals", "symmetric") if m in env.kinds[k].methods), 16)
     from ..history import history_rule
     history_rule(chk, "C11.H", F.load("dbg"))
+
+
+def symmetric_windows(chk, env):
+    """C11.W: symmetric(c) with the count mask symbolic on its relevant bits 0..n (window mode: data-dependent
+    shortcuts on the mask - saturated words, early exits - become paths with exact conditions): for every mask the
+    table has bit popcount(m) of c on assignment m."""
+    from ..harness import Space, eval_value
+    for kind in ("dyn", "static"):
+        K = env.kinds[kind]
+        b = K.methods.get("symmetric")
+        if b is None:
+            continue
+        for n in (5, 6, 7, 8, 9):
+            key = "%s::symmetric n=%d, count-mask bits 0..%d symbolic" % (K.adt, n, n)
+            try:
+                names = ["cv[%d]" % k_ for k_ in range(n + 1)]
+                space = Space(names)
+                it = env.interp(max_paths=8192)
+                it.max_steps = 100000000
+                it.prune = True
+                it.cmp_split = True
+                it.split_all = True
+                it.space = space
+                st = State()
+                cv = W(64, bits=[B.atom("cv[%d]" % k_) if k_ <= n else ZERO for k_ in range(64)])
+                with space:
+                    outs = it.call_body(b, ([usize(n)] if kind == "dyn" else []) + [cv], st, K.env(n))
+                v, d = PROVED, ""
+                seen = 0
+                for o in outs:
+                    m_ = space.pc_mask(o.pc)
+                    if m_ is None:
+                        raise Undecided("path condition with top")
+                    if not m_:
+                        continue
+                    if o.kind != "return":
+                        v, d = REFUTED, "panics (%s)" % o.info.get("msg")
+                        break
+                    if seen & m_:
+                        raise Undecided("overlapping paths")
+                    seen |= m_
+                    words = K.words(it, o.state, o.value)
+                    bits = bits_of_table(words, n)
+                    for p_, bt in enumerate(bits):
+                        got = space.bit_mask(bt) if bt is not None else None
+                        if got is None:
+                            raise Undecided("table bit %d not exact" % p_)
+                        want = space.var[B.ATOMS.get("cv[%d]" % bin(p_).count("1"))] if p_ < (1 << n) else 0
+                        diff = (got ^ want) & m_
+                        if diff:
+                            r_ = (diff & -diff).bit_length() - 1
+                            v, d = REFUTED, "symmetric(%d, %#x) has value %d on assignment %#x (%d inputs true), the mask says %d" % (
+                                n, r_, (got >> r_) & 1, p_, bin(p_).count("1"), (want >> r_) & 1)
+                            break
+                    if v != PROVED:
+                        break
+                if v == PROVED and seen != space.full:
+                    v, d = UNDECIDED, "paths do not cover every mask"
+            except Undecided as e:
+                v, d = UNDECIDED, e.cause
+            chk.add("C11.W", key, v, d, where=where_of(b))
